@@ -174,6 +174,10 @@ dedup.rule_id = "C07.DEDUP"
 
 
 # --------------------------------------------------------------------------------------------
+def _pname(payload) -> str:
+    return payload._name if isinstance(payload, Obj) else repr(payload)
+
+
 def emitted_beams(repo: Repo):
     """Abstract run of Operation.edges followed by Frame.get_all_beams; returns
     (recorded add_beam calls with payload slots, list returned by get_all_beams)."""
@@ -184,7 +188,7 @@ def emitted_beams(repo: Repo):
     def hook(ev, call: ast.Call, name):
         if isinstance(call.func, ast.Attribute) and call.func.attr == "add_beam" and len(call.args) == 3:
             args = [ev.eval(a) for a in call.args]
-            if isinstance(args[2], Sym):
+            if isinstance(args[2], (Sym, Obj)):
                 issued.append(tuple(args))
         return NO_MATCH
 
@@ -205,7 +209,7 @@ def direction(repo: Repo) -> RuleRun:
     r.require(len(issued) == 12, f"Operation.edges issues {len(issued)} payload beams, expected 12")
     # the direction a payload is defined in
     def defined(payload: Sym) -> Tuple[int, int]:
-        nm = repr(payload)
+        nm = _pname(payload)
         where, idx = nm.split(".e")
         i = int(idx)
         if where == "bottom":
@@ -214,7 +218,7 @@ def direction(repo: Repo) -> RuleRun:
             return (i + 4, (i + 1) % 4 + 4)
         return (i, i + 4)
 
-    seen = {repr(t[2]): (t[0], t[1]) for t in out} if isinstance(out, list) else {}
+    seen = {_pname(t[2]): (t[0], t[1]) for t in out} if isinstance(out, list) else {}
     r.require(isinstance(out, list), "Frame.get_all_beams does not return a list")
     # EdgeList.add_from_operation (abstract run): each beam (c1, c2, data) becomes add(vertices[c1], vertices[c2], data)
     afo = repo.func("lists.edge_list.EdgeList.add_from_operation")
@@ -254,7 +258,7 @@ def direction(repo: Repo) -> RuleRun:
         if {a, b} != set(want):
             r.bad(edges, f"Operation.edges attaches the edge data {payload} (defined between corners {want[0]} and {want[1]}) to corners {a},{b}", edges.node, key=f"beam:{want[0]}-{want[1]}")
             continue
-        got = seen.get(repr(payload))
+        got = seen.get(_pname(payload))
         if got is None:
             r.bad(edges, f"payload {payload} (between corners {want}) is lost: get_all_beams does not return it", edges.node, key=f"beam:{want[0]}-{want[1]}")
             continue
@@ -268,7 +272,7 @@ def direction(repo: Repo) -> RuleRun:
             edges.node,
             key=f"beam:{want[0]}-{want[1]}",
         )
-    dup = len(out) != len({repr(t[2]) for t in out})
+    dup = len(out) != len({_pname(t[2]) for t in out})
     r.check(not dup and len(out) == 12, repo.func("util.frame.Frame.get_all_beams"), "each beam reported once", f"get_all_beams reports {len(out)} entries for 12 beams", key="once")
     return r
 
@@ -329,6 +333,82 @@ def reversal(repo: Repo) -> RuleRun:
         else:
             r.ok(m, f"Face.{name} keeps the sense of rotation", key=name)
     r.require(examined >= 2, "fewer than two re-indexing methods of Face could be evaluated")
+    # what the reversing call does to each kind of edge data: spline / polyLine points change their order, an
+    # angle-and-axis arc its sense, every other kind is direction-free and stays as it is
+    inv = face_cls.methods.get("invert")
+    names = set()
+    if inv is not None:
+        face = sym_face(repo)
+        probe = [Obj(f"E{i}") for i in range(4)]
+        face.set("edges", probe)
+
+        def probe_hook(ev, call: ast.Call, nm):
+            if isinstance(call.func, ast.Attribute):
+                try:
+                    recv = ev.eval(call.func.value)
+                except NotEvaluable:
+                    return NO_MATCH
+                if isinstance(recv, Obj) and recv in probe:
+                    names.add(call.func.attr)
+                    return None
+            return NO_MATCH
+
+        try:
+            Evaluator(repo=repo, module=inv.module, call_hook=probe_hook).call_funcinfo(inv, [face])
+        except (NotEvaluable, Raised):
+            names = set()
+    if len(names) == 1:
+        from .c09 import _is_noop
+
+        meth = next(iter(names))
+        base = repo.cls("construct.edges.EdgeData")
+        vec_cls = repo.cls("construct.point.Vector")
+        for cls in sorted(repo.subclasses(base), key=lambda c: c.qualname):
+            m = repo.find_method(cls, meth)
+            r.require(m is not None, f"{cls.qualname} has no method '{meth}' although Face.invert calls it on every edge")
+            kind = repo.class_var(cls, "kind")
+            kind_s = ast.literal_eval(kind[0]) if kind is not None and isinstance(kind[0], ast.Constant) else cls.name
+            if cls.name == "Angle":
+                e = Obj("angle_edge", cls=cls)
+                e.set("angle", 1)
+                axis = Obj("axis", cls=vec_cls)
+                e.set("axis", axis)
+                log = []
+
+                def ahook(ev, call: ast.Call, nm, axis=axis, log=log):
+                    if isinstance(call.func, ast.Attribute) and call.func.attr in ("scale", "mirror", "rotate", "translate"):
+                        recv = ev.eval(call.func.value)
+                        if recv is axis:
+                            log.append((call.func.attr, [ev.eval(a) for a in call.args]))
+                            return recv
+                    return NO_MATCH
+
+                _run(Evaluator(repo=repo, module=m.module, call_hook=ahook), m, [e])
+                sign = e.get("angle") if e.get("angle") in (1, -1) else 0
+                for what, args in log:
+                    sign = sign * int(args[0]) if what == "scale" and args and args[0] in (1, -1) else 0
+                r.check(sign == -1, m, f"{cls.name}.{meth} reverses the sense of rotation", f"{cls.name}.{meth}() leaves the sense of the arc {'as it is' if sign == 1 else 'undetermined'} (angle {e.get('angle')!r}, axis operations {log}): traversed from the other end the same arc turns the other way, so the angle or the axis must change sign", m.node, key=f"{meth}:{cls.name}")
+            elif kind_s in ("spline", "polyLine") and cls.name in ("Spline", "PolyLine"):
+                e = Obj("spline_edge", cls=cls)
+                arr = Obj("array", cls=repo.cls("construct.array.Array"))
+                pts = [Sym("q0"), Sym("q1"), Sym("q2")]
+                arr.set("points", list(pts))
+                curve = Obj("curve", cls=repo.cls("construct.curves.discrete.DiscreteCurve"))
+                curve.set("array", arr)
+                e.set("curve", curve)
+
+                def shook(ev, call: ast.Call, nm):
+                    if nm in ("np.flip", "numpy.flip", "np.flipud", "numpy.flipud") and call.args:
+                        v = ev.eval(call.args[0])
+                        if isinstance(v, list):
+                            return list(reversed(v))
+                    return NO_MATCH
+
+                _run(Evaluator(repo=repo, module=m.module, call_hook=shook), m, [e])
+                got = e.get("curve").get("array").get("points")
+                r.check(got == list(reversed(pts)), m, f"{cls.name}.{meth} reverses the order of the points", f"{cls.name}.{meth}() leaves the points as {got}: a {kind_s} lists its points from the first to the second end point of the edge, so they must be reversed when the end points swap", m.node, key=f"{meth}:{cls.name}")
+            else:
+                r.check(_is_noop(m), m, f"{cls.name}.{meth}: direction-free, unchanged", f"{cls.name}.{meth}() modifies the edge data although a '{kind_s}' edge does not depend on the direction it is traversed in", m.node, key=f"{meth}:{cls.name}")
     return r
 
 
